@@ -817,6 +817,10 @@ class Evaluator:
             if type(a) is type(b) or (isinstance(a, (int, float)) and isinstance(b, (int, float))):
                 r = a == b
                 return r if op == "==" else not r
+            ka, kb = self.cmp_key(a), self.cmp_key(b)
+            if ka is not None and kb is not None and isinstance(ka, (int, float)) and isinstance(kb, (int, float)) \
+                    and (isinstance(a, V) and len(a.args) == 1 or isinstance(b, V) and len(b.args) == 1):
+                return (ka == kb) if op == "==" else (ka != kb)         # ordered newtype against its field type
             return Sym("eq", (a, b))
         if op in ("<", "<=", ">", ">="):
             ka, kb = self.cmp_key(a), self.cmp_key(b)
@@ -1325,6 +1329,8 @@ def _b_nz_new(ev, n, a):
 
 def _b_into(ev, n, a):
     v = a[0]
+    if isinstance(v, T) and ("Vec<" in str(n.get("ty", "")) or str(n.get("ty", "")).startswith("[")):
+        return v                      # array -> Vec / slice: the same sequence
     if isinstance(v, bool) and n.get("ty") in INT_BITS:
         return int(v)
     if isinstance(v, (int, float)) and not isinstance(v, bool):
@@ -1333,7 +1339,9 @@ def _b_into(ev, n, a):
             return wrap_int(v, ty)
         if ty in ("f64", "f32"):
             return float(v)
-        return v
+        if ty is None:
+            return v
+        return NotImplemented         # a user From impl (`Unit::from(usize)`): resolved and folded like any function
     return NotImplemented
 
 
@@ -1374,6 +1382,13 @@ def _b_eq(neg):
         x, y = a
         if has_sym(x) or has_sym(y):
             return Sym("eq", (x, y))
+        if type(x) is not type(y) and not (isinstance(x, (int, float)) and isinstance(y, (int, float))):
+            # a newtype compared with its field type (`FiniteF64 == f64`): through the field when the type orders by it;
+            # anything else is not decided (python equality of unlike values would be a wrong `false`)
+            kx, ky = ev.cmp_key(x), ev.cmp_key(y)
+            if kx is None or ky is None or isinstance(kx, tuple) != isinstance(ky, tuple):
+                return Sym("eq", (x, y))
+            x, y = kx, ky
         r = x == y
         return (not r) if neg else r
     return f
@@ -1861,6 +1876,11 @@ def _b_iter_find_map(ev, n, a):
     return V(NONE, ())
 
 
+def _b_iter_enumerate(ev, n, a):
+    items = _iter_items(a[0])
+    return T(tuple(T((i, it)) for i, it in enumerate(items))) if items is not None else NotImplemented
+
+
 def _b_iter_rev(ev, n, a):
     items = _iter_items(a[0])
     return T(tuple(reversed(items))) if items is not None else NotImplemented
@@ -1912,6 +1932,9 @@ BUILTINS.update({
     "core::iter::traits::iterator::Iterator::all": _b_iter_all,
     "core::iter::traits::iterator::Iterator::find_map": _b_iter_find_map,
     "core::iter::traits::iterator::Iterator::rev": _b_iter_rev,
+    "core::iter::traits::iterator::Iterator::enumerate": _b_iter_enumerate,
+    "alloc::vec::Vec::<T, A>::iter": _b_seq_identity,
+    "alloc::vec::Vec::<T>::iter": _b_seq_identity,
     "core::slice::<impl [T]>::contains": _b_slice_contains,
     "core::slice::<impl [T]>::get": _b_slice_get,
     "num_traits::cast::NumCast::from": _b_numcast,
